@@ -41,3 +41,40 @@ Print Assumptions C04_cz_is_h_cnot_h.
 Theorem C04_h_is_involution : forall K (O : Ops K), Laws O -> mmul O (Hm O) (Hm O) = mid O 2.
 Proof. exact @h_is_involution. Qed.
 Print Assumptions C04_h_is_involution.
+
+(* ---- controlled application (Sim/CtrlApplyProofs.v): how Cirq applies a ControlledGate / controlled_by operation ----
+   It never builds the big matrix: it applies the sub-gate to the slice of the state in which the control qudits hold one
+   of the control-value tuples and leaves the rest alone (capply).  That IS the action of the documented block matrix,
+   for any number and dimension of controls and targets and any sum-of-products control values ... *)
+From VF Require Import Gates.Families Sim.CtrlApply Sim.CtrlApplyProofs.
+Theorem C04_apply_ctrl_matrix : forall K (O : Ops K), Laws O -> forall cdims cvals dims (M : matrix (K:=K)) cax ax psi i,
+  sq (size dims) M -> Forall2 lt (gets i cax) cdims -> Forall2 lt (gets i ax) dims ->
+  apply O (mat_of O (cdims ++ dims) (ctrl_matrix O cdims cvals M)) (cdims ++ dims) (cax ++ ax) psi i
+  = capply O (mat_of O dims M) dims ax cax cvals psi i.
+Proof. exact @apply_ctrl_matrix. Qed.
+Print Assumptions C04_apply_ctrl_matrix.
+(* ... the loop over the control-value tuples that _apply_unitary_ runs is that one-pass slice application when the
+   tuples are distinct (SumOfProducts deduplicates them) ... *)
+Theorem C04_capply_loop_eq : forall K (O : Ops K) U dims ax cax cvals, NoDup cvals -> (forall x, In x ax -> ~ In x cax) ->
+  forall psi i, capply_loop O U dims ax cax cvals psi i = capply O U dims ax cax cvals psi i.
+Proof. exact @capply_loop_eq. Qed.
+Print Assumptions C04_capply_loop_eq.
+(* ... control of a composition is the composition of the controls, on states and on matrices ... *)
+Theorem C04_capply_mcomp : forall K (O : Ops K), Laws O -> forall U V dims ax cax cvals (psi : tensor (K:=K)) i,
+  (forall x, In x ax -> ~ In x cax) -> NoDup ax -> (forall a, In a ax -> a < length i) -> length ax = length dims ->
+  capply O (mcomp O dims U V) dims ax cax cvals psi i = capply O U dims ax cax cvals (capply O V dims ax cax cvals psi) i.
+Proof. exact @capply_mcomp. Qed.
+Print Assumptions C04_capply_mcomp.
+Theorem C04_cmat_mcomp : forall K (O : Ops K), Laws O -> forall (U V : mat (K:=K)) cdims dims cvals r c,
+  Forall2 lt (firstn (length cdims) r) cdims ->
+  (cactive cvals (firstn (length cdims) r) = false -> Forall2 lt (skipn (length cdims) r) dims) ->
+  cmat O (length cdims) cvals (mcomp O dims U V) r c
+  = mcomp O (cdims ++ dims) (cmat O (length cdims) cvals U) (cmat O (length cdims) cvals V) r c.
+Proof. exact @cmat_mcomp. Qed.
+Print Assumptions C04_cmat_mcomp.
+(* ... and a controlled operation commutes with anything on other axes *)
+Theorem C04_capply_commute_apply : forall K (O : Ops K), Laws O -> forall U V dims ax cax cvals d2 a2 (psi : tensor (K:=K)) i,
+  (forall x, In x a2 -> ~ In x (cax ++ ax)) ->
+  capply O U dims ax cax cvals (apply O V d2 a2 psi) i = apply O V d2 a2 (capply O U dims ax cax cvals psi) i.
+Proof. exact @capply_commute_apply. Qed.
+Print Assumptions C04_capply_commute_apply.
